@@ -196,6 +196,18 @@ func spaces(tier string) []*gridx.Space {
 		sp = append(sp, gridx.PV("Sacramento", set))
 		sn = append(sn, fmt.Sprint(set))
 	}
+	// factorial over the lower-zone percolation parameters (thorough: full; quick: corners)
+	lvl := func(q, th []float64) []float64 {
+		if tier == "thorough" {
+			return th
+		}
+		return q
+	}
+	fp, fn := gridx.Grid("Sacramento", nil, []gridx.Axis{
+		{Name: "pfree", Vals: lvl([]float64{0, 1}, []float64{0, 0.5, 0.8, 1})}, {Name: "rserv", Vals: lvl([]float64{0.3, 1}, []float64{0, 0.3, 1})},
+		{Name: "lzfsm", Vals: lvl([]float64{5, 300}, []float64{5, 25, 300})}, {Name: "lzfpm", Vals: lvl([]float64{5, 600}, []float64{5, 60, 600})},
+		{Name: "lztwm", Vals: lvl([]float64{5, 300}, []float64{5, 130, 300})}, {Name: "zperc", Vals: lvl([]float64{1, 80}, []float64{1, 40, 80})}})
+	sp, sn = append(sp, fp...), append(sn, fn...)
 	sac := &acct{model: "Sacramento", runoff: 1, et: 0, compA: 3, compB: 4,
 		storage: func(p map[string]float64, st []float64) (float64, [][3]interface{}) {
 			perv := 1 - p["pctim"] - p["adimp"]
